@@ -67,6 +67,11 @@ where
     pub(crate) fn progress_yielded_counter(&self, num_yielded: usize) -> usize {
         self.yielded_counter.fetch_and_add(num_yielded)
     }
+
+    #[inline(always)]
+    pub(crate) fn mark_completed(&self) {
+        self.completed.store(true, atomic::Ordering::SeqCst);
+    }
 }
 
 impl<T: Send + Sync, Iter> From<Iter> for ConIterOfIter<T, Iter>
@@ -164,7 +169,11 @@ where
                     assert_eq!(older_count, begin_idx);
                     None
                 }
-                _ => {
+                len => {
+                    if len < n {
+                        // the wrapped iterator has returned None: it must not be polled again
+                        self.completed.store(true, atomic::Ordering::SeqCst);
+                    }
                     let values = buffer.into_iter();
                     let older_count = self.progress_yielded_counter(n);
                     assert_eq!(older_count, begin_idx);
